@@ -177,3 +177,19 @@ func init() {
 		assumptions: std,
 	}
 }
+
+// Clauses of rules added after the first build round (DESIGN.md §10.2, §10.9); appended here so that each property's
+// explanation in the evidence names every rule its selectors use.
+func init() {
+	add := func(id, text string) { props[id].explanation += " " + text }
+	add("C01", "K3 no loop compacts in place (out := xs[:0]) the slice it ranges over while an iteration can append more than one element (members would be dropped or bound twice).")
+	add("C02", "L4 a node inserted into a linked list is linked between two neighbours that cannot be the same node (no cycle, so no traversal that never ends); F5 every integer division/remainder by a non-constant is dominated by a test that excludes zero (ring sizes fixed at construction are listed as notes).")
+	add("C04", "P3 the ring's newest-sequence mark is only moved under a comparison with its previous value or in the first-packet branch.")
+	add("C07", "P3 the newest-sent sequence number (the reference for the in-order test) is only overwritten under a comparison with its previous value or in the first-packet branch; P1 also demands that a first-packet test of the packet counter reads it before the increment.")
+	add("C09", "P3 highestAcked only moves under a comparison with its previous value; J3 no sequence number is reduced by a remainder with 2^16-1 / 2^32-1.")
+	add("C15", "J3 the transport-wide counter is not reduced by a remainder with 2^16-1.")
+	add("C17", "Q4 the accepting side of a queue-based pacer never writes downstream itself (no bypass that overtakes queued packets); F5 the burst computation does not divide by a value that can be zero.")
+	add("C18", "L3 also covers every field of the queue that points into the linked structure (derived from the types, e.g. a cached tail); L4 a node inserted into the list is linked between two neighbours that cannot be the same node; J3 no remainder by 2^16-1.")
+	add("C19", "S4 in the per-packet RTP recording functions the accumulated packet/byte/header-byte counters are updated on exactly the same paths; S5 every RTCP closure of the interceptor hands each batch to every recorder (one unconditional hand-off per registry entry, no early exit, no selection outside the recorder); P3 the highest received sequence number is only raised through a comparison with its previous value.")
+	add("C20", "J3 no remainder by 2^16-1 / 2^32-1 in the unwrapper's package.")
+}
